@@ -40,6 +40,7 @@ type runResult struct {
 	Steps       int                 `json:"steps"`
 	Overrun     int                 `json:"overrun"`
 	LogLines    []string            `json:"-"`
+	FromRace    bool                `json:"-"`
 }
 
 type opts struct {
@@ -352,6 +353,10 @@ func cmdCheck(args []string) int {
 				}
 				mu.Lock()
 				if wo.Fail != nil {
+					// a functional violation seen by the -race binary (which builds no
+					// reference servers and therefore runs past the points where the
+					// plain binary stops) is re-executed the same way
+					wo.Fail.FromRace = tag != ""
 					fails = append(fails, wo.Fail)
 				}
 				if wo.Stats != nil {
@@ -451,9 +456,11 @@ func cmdCheck(args []string) int {
 			nviol++
 			continue
 		}
+		ok := o
+		ok.race = f.FromRace
 		pred := func(choices []int) (*runResult, bool) {
 			c := simrt.NewReplayChooser(choices)
-			r := runOne(e, c, f.Param, o, engine.NewStats(), false)
+			r := runOne(e, c, f.Param, ok, engine.NewStats(), false)
 			for _, v := range r.Violations {
 				if v.Key() == k {
 					return r, true
@@ -470,7 +477,7 @@ func cmdCheck(args []string) int {
 		}
 		min := shrink(f.Choices, pred, 4000)
 		c := simrt.NewReplayChooser(min)
-		final := runOne(e, c, f.Param, o, engine.NewStats(), true)
+		final := runOne(e, c, f.Param, ok, engine.NewStats(), true)
 		var fv *engine.Violation
 		for _, v := range final.Violations {
 			if v.Key() == k {
@@ -481,11 +488,15 @@ func cmdCheck(args []string) int {
 			fmt.Fprintf(os.Stderr, "harness trouble: minimised list for %s does not reproduce\n", k)
 			return 2
 		}
-		path := writeReplay(*replays, *prop, *eng, fv, *seed, f, min, final.Trace, *tier, false, *repoHead, final.Fingerprint)
-		// confirm twice in fresh processes
+		path := writeReplay(*replays, *prop, *eng, fv, *seed, f, min, final.Trace, *tier, f.FromRace, *repoHead, final.Fingerprint)
+		// confirm twice in fresh processes (of the binary the failure came from)
+		confirmBin := self
+		if f.FromRace && *raceBin != "" {
+			confirmBin = *raceBin
+		}
 		okc := 0
 		for i := 0; i < 2; i++ {
-			out, _ := exec.Command(self, "replay", "-file", path, "-json", "-known", *known).Output()
+			out, _ := exec.Command(confirmBin, "replay", "-file", path, "-json", "-known", *known).Output()
 			var r struct {
 				Same        bool   `json:"same"`
 				Fingerprint string `json:"fingerprint"`
